@@ -789,7 +789,7 @@ func main() {
 		}
 	}
 	initProbes(r.Thorough()) // thorough: every pair of probe keys as a range
-	r.Rule("random histories of 25 updates (SetRule, DeleteRule, SetRules, Batch add/del/del-by-prefix, SetRuleGroup, DeleteRuleGroup, SetGroupBundle, SetAllGroupBundles override t/f, DeleteGroupBundle plain/regexp, get-modify-set) over 4 groups x 6 rule ids, key ranges over a 10-point hex alphabet (nested, adjacent, unbounded, byte-prefix keys), rule index/override, group index/override, ~4% malformed rules; each update is judged on 24 probe keys and ~" + fmt.Sprint(len(probeRanges)) + " probe ranges, then re-run on a replayed clone once per storage write and fault mode (fail-before / lost-ack) with that write failing, then retried. distinct = configured state before x update (x failed write x mode)")
+	r.Rule("random histories of 25 updates (SetRule, DeleteRule, SetRules, Batch add/del/del-by-prefix, SetRuleGroup, DeleteRuleGroup, SetGroupBundle, SetAllGroupBundles override t/f, DeleteGroupBundle plain/regexp, get-modify-set) over 4 groups x 6 rule ids, key ranges over a 10-point hex alphabet (nested, adjacent, unbounded, byte-prefix keys), rule index/override, group index/override, ~4% malformed rules; each update is judged on 24 probe keys and ~" + fmt.Sprint(len(probeRanges)) + " probe ranges, then re-run on a replayed clone once per storage write and fault mode (fail-before / lost-ack) with that write failing, then retried. distinct = configured state before x update (x failed write x mode). Two-writer phase: pairs of updates (biased to pairs that are each valid alone but invalid together, and to independent SetRules on different keys) run concurrently under the gate scheduler, every storage write parks, release orders enumerated depth-first for both start orders; judged by serial equivalence with the model (A;B or B;A) and reload; distinct = base state x pair x start order x released write sequence")
 	r.Assume("reference model (model.go) written from the statement and the documented meaning of the fields/calls; override ties (equal index) and other undocumented corners are not judged (counted as skipped)")
 	r.Assume("a restarted PD = a fresh RuleManager.Initialize on a copy of the storage content; storage = core.Storage over an instrumented in-memory kv.Base; only writes (Save/Remove) are failed")
 	r.Assume("the order in which one update issues its storage writes is Go map order (savePatch), so which write is the k-th varies between runs; all k are enumerated")
@@ -805,6 +805,7 @@ func main() {
 	}
 	runRandom(r, rp, rng)
 	runConcurrent(r, rp, rng)
+	runTwoWriters(r, rng)
 	r.Set("probe_keys_per_observation", fmt.Sprint(len(probeKeys))) // strings: the driver sums numeric extras over shards
 	r.Set("probe_ranges_per_observation", fmt.Sprint(len(probeRanges)))
 	r.Floor(int64(r.Pick(3000, 12000)))
